@@ -16,6 +16,7 @@ OBLIGATIONS = [
     (P + "wire_roundtrip_data_partial", "the server holds k -> (v,trigs,deadline,g), sizes fit, names NUL-free: tcp_cache::fetch returns v, deadline, g unchanged and the same set of trigger names"),
     (P + "step_eq_astep", "under the size bounds one cluster operation over the real codec (headers, uint32 fields, frame validation, strlen loops) EQUALS the operation over the message-level transport used in the coherence proofs"),
     (P + "gen_unique", "on one server two entries that ever (after any two prefixes of the history) carried the same generation are the same entry; histories of < 2^64 operations"),
+    (P + "generation_survives_clear", "clear (nl_clear) and every operation but a performed store leave the generation counter alone — generated from mem_cache::nl_clear/clear/store and proved of the model; gen_unique is stated for histories containing clears"),
     (P + "l1_inv", "every L1 entry (k,v,deadline,g) was after some prefix of the history the responsible server's entry for k with generation g"),
     (P + "coherent_fetch", "a fetch on any node (with or without L1, any limits, any number of clients/servers) returning (v,deadline,g) implies: a direct fetch on the responsible server at that moment returns the same v, deadline, g; no WFwire hypothesis"),
     (P + "coherent_fetch_ideal_partial", "histories whose stores are WFwire: every hit satisfies Spec.answerOk against the ideal shared cache = value and deadline of the latest store of the key by ANY node, not invalidated since by ANY node's rise/clear, not expired; with NUL-free keys also the trigger clause (a fetch asking for triggers gets a superset of the entry's trigger set)"),
